@@ -293,6 +293,10 @@ func (r *Run) Violate(fingerprint, what string, kase interface{}, confirm func()
 		first := ""
 		for i := 0; i < 5; i++ {
 			o := confirm()
+			if o != "" {
+				// compare what the failure says, not incidental text (goroutine numbers and addresses of a stack trace)
+				o = Norm(strings.SplitN(o, "\n", 2)[0], 160)
+			}
 			if o == "" || (i > 0 && o != first) {
 				r.mu.Lock()
 				r.p.Unstable = append(r.p.Unstable, fingerprint+": "+what)
